@@ -11,7 +11,9 @@
      reachable st             st = the state after ANY history (OAdd/ORemove/OConnect/ODisconnect/
                               ODisconnectAll/OSetMap/OAssign/OWConnect/ORun, and OReadd = a removed node
                               object comes back under any label, ORelabel = add_child(child, label=new),
-                              OReplace = replace_child by a fresh or a removed node) on a fresh Workflow
+                              OReplace = replace_child by a fresh or a removed node, OMapSet / OMapDel /
+                              OMapUpdate = in-place edits wf.inputs_map[k] = v, del, .update(...) of the
+                              map object the property hands out) on a fresh Workflow
                               built with ANY pair of accepted constructor maps.  Keys are always formed
                               from the child's CURRENT label: exposes reads c_label of the state at hand.
      wfs st                   the structural invariant of reachable states *)
@@ -132,6 +134,35 @@ Theorem C15_bijective_accepted : forall st d m, NoDup (map fst m) -> NoDup (name
 Proof. intros st d m Hk Hn. split; [now apply set_map_accepts|intros k; now apply lookup_dedup]. Qed.
 Print Assumptions C15_bijective_accepted.
 
+(* ... and the maps STAY one-to-one after every history, in-place edits of the handed-out map
+   object included (map_ok m: the stored values of m are pairwise distinct) *)
+Theorem C15_maps_stay_one_to_one : forall st, reachable st -> map_ok (w_imap st) /\ map_ok (w_omap st).
+Proof. intros st R. pose proof (reachable_wfs _ R) as W. split; [apply (wf_im _ W)|apply (wf_om _ W)]. Qed.
+Print Assumptions C15_maps_stay_one_to_one.
+
+(* wf.inputs_map[k] = s where another key already carries the name s: refused (Value- or
+   KeyAndValueDuplicationError), nothing changes -- whatever the map was set to before, {} included *)
+Theorem C15_inplace_rejected : forall st d l k k' s,
+  kmap_of st d = Some l -> In (k', MName s) l -> k' <> k ->
+  exists e, map_setitem st d k (Some s) = (st, RExc e) /\ (e = DupErr \/ e = KVDupErr).
+Proof. exact map_setitem_rejects. Qed.
+Print Assumptions C15_inplace_rejected.
+
+Theorem C15_inplace_accepted : forall st d l k v,
+  kmap_of st d = Some l -> (forall k', k' <> k -> ~ In (k', mv k v) l) ->
+  map_setitem st d k v = (set_kmap st d (Some (put_at l k (mv k v))), ROk) /\
+  lookup_map (Some (put_at l k (mv k v))) k = Some (mv k v) /\
+  (forall k', k' <> k -> lookup_map (Some (put_at l k (mv k v))) k' = lookup_map (Some l) k').
+Proof. exact map_setitem_accepts. Qed.
+Print Assumptions C15_inplace_accepted.
+
+Theorem C15_inplace_refusal_changes_nothing : forall st d,
+  (forall k v st' e, map_setitem st d k v = (st', RExc e) -> st' = st) /\
+  (forall k st' e, map_delitem st d k = (st', RExc e) -> st' = st) /\
+  (forall ps st' e, map_update st d ps = (st', RExc e) -> st' = st).
+Proof. exact map_edit_refused_unchanged. Qed.
+Print Assumptions C15_inplace_refusal_changes_nothing.
+
 (* ---- availability --------------------------------------------------------------------------------------- *)
 (* the injectivity assumption on child.label ++ "__" ++ channel.label, discharged for child labels
    that neither contain "__" nor end in "_" (channel labels are unrestricted) *)
@@ -207,4 +238,15 @@ Example C15_keys_follow_current_label :
   build_io (hist (h1 ++ [ORelabel "c" "m"])) DOut = Some [("b__y", 3); ("m__y", 1)] /\
   build_io (hist (h1 ++ [OReplace "c" None; OReadd "spare" None])) DIn
     = Some [("b__x", 2); ("c__x", 4); ("spare__x", 0)].
+Proof. vm_compute. repeat split; reflexivity. Qed.
+
+(* an EMPTY map filled in place stays one-to-one: the second key is refused for the used name, the
+   panel stays readable, a None is fine, an update that repeats a name is refused as a whole *)
+Example C15_empty_map_filled_in_place :
+  let st := hist [OAdd 0 "a"; OAdd 0 "b"; OSetMap DIn (Some []); OMapSet DIn "a__x" (Some "x")] in
+  snd (map_setitem st DIn "b__x" (Some "x")) = RExc DupErr /\
+  build_io (fst (map_setitem st DIn "b__x" (Some "x"))) DIn = Some [("x", 0); ("b__x", 2)] /\
+  build_io (fst (map_setitem st DIn "b__x" None)) DIn = Some [("x", 0)] /\
+  snd (map_update st DIn [("b__x", Some "y"); ("a__x", Some "y")]) = RExc KVDupErr /\
+  snd (map_setitem (hist [OAdd 0 "a"]) DIn "a__x" (Some "x")) = RExc TypeErr.
 Proof. vm_compute. repeat split; reflexivity. Qed.
